@@ -11,7 +11,7 @@ from . import facts as F
 from .engine import Analysis, CLS, PUBLIC_API
 from .loader import norm
 from .report import Rule
-from .rules_common import (call_arg, MUT, primary, base_class, site_text, site_func, site_loc, resource_hits, func_nodes,
+from .rules_common import (call_arg, digest_checked_before_delete, MUT, primary, base_class, site_text, site_func, site_loc, resource_hits, func_nodes,
                            ends_in_raise)
 from .rules_paths import Q, ALL_MODES, all_events, probe_atoms
 from .terms import AnalysisError, show, showv, tag, C, P, V, NONE, EMPTY, classify, subterms
@@ -1087,7 +1087,7 @@ def check_C13(A: Analysis, tier):
                 ri.ob()
                 ri.inst(f"{e}: {site_func(ev)}: `{site_text(ev)[:50]}` {sorted(cls)}")
                 ok = (Q("_untag_object") in ev.ctx and cls <= {"PIDREFS", "CIDREFS"}) \
-                    or (Q("_move_and_get_checksums") in ev.ctx and cls == {"OBJ"}) \
+                    or (Q("_move_and_get_checksums") in ev.ctx and cls == {"OBJ"} and digest_checked_before_delete(ev)) \
                     or (e == "delete_if_invalid_object" and Q("_delete_object_only") in ev.ctx and cls == {"OBJ"}
                         and ev.handling[-1] in ("NonMatchingObjSize", "NonMatchingChecksum"))
                 if not ok:
@@ -1632,6 +1632,25 @@ def check_C20(A: Analysis, tier):
                 rc.fail(main, f"{meth}: required option {d}", f"{meth} is called although the required option `{d}` may be missing", A.p.loc(main, hit[0]["node"]))
     rules.append(rc)
     rules.append(rd)
+
+    rg20 = Rule("C20", "C20.g", "the client changes nothing in the store by itself: every creation, write, rename or removal of a file under the store "
+                "path happens inside an API call", floor=1)
+    rg20.inst(f"main: {len(it.events)} primitive event(s) outside API calls")
+    for ev in it.events:
+        if ev.kind in MUT or ev.kind in ("MKDIR", "CHMOD"):
+            rg20.ob()
+            from .terms import substitute, ROOT
+            for cs in [ev.paths[0] if ev.paths else EMPTY]:
+                # in the client the store root is the `store_path` option
+                from .terms import is_rooted
+                for t2 in [substitute(t, {("opt", "store_path"): ROOT}) for t in cs]:
+                    c = classify(t2)
+                    inside = tag(t2) == "join" and is_rooted(t2) and len(t2[1]) >= 3    # something below <store>/<entity>/
+                    if inside or base_class(c).cls in ("TMP", "OBJ", "CIDREFS", "PIDREFS", "META", "MARKER", "METADIR", "TMPDIR", "ENTITYDIR", "CONFIG", "FALLBACK"):
+                        rg20.fail(ev.func, ev.node, f"the client itself performs {ev.kind} ({ev.prim}) on {c!r} inside the store: an effect no API call has, "
+                                  "and one that bypasses the API's claims (a concurrent call's temp file, reference or object can be hit)", A.p.loc(ev.func, ev.node))
+    rg20.ob()
+    rules.append(rg20)
 
     rf = Rule("C20", "C20.f", "the create-store verb always hands the command-line properties to the API constructor "
               "(whether they are acceptable for an existing store is the API's decision, not the client's)", floor=1)
